@@ -210,6 +210,9 @@ pub enum RandomMode {
     Const(f64),
     /// a deterministic stream
     Stream(u64),
+    /// `vrandom(0)` (the draw that orders the groups of a privacy unit before capping) follows a
+    /// deterministic stream; every other draw (noise) is the constant
+    Split(f64, u64),
 }
 
 pub fn open(random: RandomMode) -> Connection {
@@ -259,32 +262,58 @@ pub fn open(random: RandomMode) -> Connection {
         })
         .unwrap();
     }
-    let state = Arc::new(AtomicU64::new(match &random {
-        RandomMode::Stream(s) => *s,
+    let seed0 = match &random {
+        RandomMode::Stream(s) | RandomMode::Split(_, s) => *s,
         _ => 0,
-    }));
+    };
+    let state = Arc::new(AtomicU64::new(seed0));
+    // every statement sees the stream from its start (see `exec`), so that a relation and its
+    // sub-relations executed separately take the same random decisions
+    STREAM.with(|st| *st.borrow_mut() = Some((state.clone(), seed0)));
     let mode = random.clone();
     let st = state.clone();
-    let draw = move || -> f64 {
+    // `cap`: is this the draw of the contribution-capping column?
+    let draw = move |cap: bool| -> f64 {
+        let stream = || {
+            let mut r = Rng(st.fetch_add(0x9E37, Ordering::SeqCst));
+            // (0,1]
+            ((r.next() >> 11) as f64 + 1.0) / (1u64 << 53) as f64
+        };
         match &mode {
             RandomMode::Const(c) => *c,
-            RandomMode::Stream(_) => {
-                let mut r = Rng(st.fetch_add(0x9E37, Ordering::SeqCst));
-                // (0,1]
-                ((r.next() >> 11) as f64 + 1.0) / (1u64 << 53) as f64
+            RandomMode::Stream(_) => stream(),
+            RandomMode::Split(c, _) => {
+                if cap {
+                    stream()
+                } else {
+                    *c
+                }
             }
         }
     };
     let d1 = draw.clone();
-    conn.create_scalar_function("random", 0, nondet, move |_| Ok(d1())).unwrap();
+    conn.create_scalar_function("random", 0, nondet, move |_| Ok(d1(false))).unwrap();
     let d2 = draw.clone();
-    conn.create_scalar_function("vrandom", 1, nondet, move |_| Ok(d2())).unwrap();
+    conn.create_scalar_function("vrandom", 1, nondet, move |ctx| {
+        let id: i64 = ctx.get(0)?;
+        Ok(d2(id == 0))
+    })
+    .unwrap();
     conn
 }
 
 pub type Rows = (Vec<String>, Vec<Vec<Cell>>);
 
+thread_local! {
+    static STREAM: std::cell::RefCell<Option<(Arc<AtomicU64>, u64)>> = std::cell::RefCell::new(None);
+}
+
 pub fn exec(conn: &Connection, sql: &str) -> Result<Rows, String> {
+    STREAM.with(|st| {
+        if let Some((state, seed0)) = st.borrow().as_ref() {
+            state.store(*seed0, Ordering::SeqCst);
+        }
+    });
     let mut st = conn.prepare(sql).map_err(|e| e.to_string())?;
     let names: Vec<String> = st.column_names().iter().map(|s| s.to_string()).collect();
     let n = names.len();
@@ -499,6 +528,112 @@ pub fn nodes(r: &Relation) -> Vec<&Relation> {
 
 pub fn render(r: &Relation) -> String {
     ast::Query::from(r).to_string()
+}
+
+/// The translator used to *execute* rewritten relations on SQLite: the library's PostgreSQL translator,
+/// except that `Random(id)` is rendered `vrandom(id)` so that the harness controls each random source.
+#[derive(Clone, Copy)]
+pub struct ExecTranslator;
+use qrlew::dialect_translation::{postgresql::PostgreSqlTranslator, RelationToQueryTranslator, RelationWithTranslator};
+impl RelationToQueryTranslator for ExecTranslator {
+    fn first(&self, expr: ast::Expr) -> ast::Expr {
+        PostgreSqlTranslator.first(expr)
+    }
+    fn mean(&self, expr: ast::Expr) -> ast::Expr {
+        PostgreSqlTranslator.mean(expr)
+    }
+    fn var(&self, expr: ast::Expr) -> ast::Expr {
+        PostgreSqlTranslator.var(expr)
+    }
+    fn std(&self, expr: ast::Expr) -> ast::Expr {
+        PostgreSqlTranslator.std(expr)
+    }
+    fn trunc(&self, exprs: Vec<ast::Expr>) -> ast::Expr {
+        PostgreSqlTranslator.trunc(exprs)
+    }
+    fn round(&self, exprs: Vec<ast::Expr>) -> ast::Expr {
+        PostgreSqlTranslator.round(exprs)
+    }
+    fn function(&self, function: &qrlew::expr::function::Function, arguments: Vec<ast::Expr>) -> ast::Expr {
+        match function {
+            qrlew::expr::function::Function::Random(id) => {
+                let q = parse(&format!("SELECT vrandom({})", id)).unwrap();
+                match q.body.as_ref() {
+                    ast::SetExpr::Select(s) => match &s.projection[0] {
+                        ast::SelectItem::UnnamedExpr(e) => e.clone(),
+                        _ => unreachable!(),
+                    },
+                    _ => unreachable!(),
+                }
+            }
+            f => PostgreSqlTranslator.function(f, arguments),
+        }
+    }
+}
+
+/// Rendering for execution on SQLite (see `ExecTranslator`); SQLite rejects a column list on the alias of
+/// a derived VALUES table, which is rewritten into an equivalent projection.
+pub fn render_exec(r: &Relation) -> String {
+    let sql = ast::Query::from(RelationWithTranslator(r, ExecTranslator)).to_string();
+    fix_values_alias(&sql)
+}
+
+fn fix_values_alias(sql: &str) -> String {
+    // (VALUES (1), (2)) AS "x" ("x")   ->   (SELECT column1 AS "x" FROM (VALUES (1), (2))) AS "x"
+    let mut out = String::new();
+    let mut rest = sql;
+    while let Some(i) = rest.find("(VALUES ") {
+        out.push_str(&rest[..i]);
+        let after = &rest[i..];
+        // find the matching close parenthesis
+        let mut depth = 0i32;
+        let mut end = None;
+        let mut in_str = false;
+        for (k, ch) in after.char_indices() {
+            match ch {
+                '\'' => in_str = !in_str,
+                '(' if !in_str => depth += 1,
+                ')' if !in_str => {
+                    depth -= 1;
+                    if depth == 0 {
+                        end = Some(k);
+                        break;
+                    }
+                }
+                _ => (),
+            }
+        }
+        let Some(end) = end else {
+            out.push_str(after);
+            rest = "";
+            break;
+        };
+        let values = &after[1..end]; // VALUES (...), (...)
+        let tail = &after[end + 1..];
+        // expect: AS "name" ("col")
+        let parsed = (|| {
+            let t = tail.strip_prefix(" AS \"")?;
+            let q = t.find('"')?;
+            let name = &t[..q];
+            let t2 = t[q + 1..].strip_prefix(" (\"")?;
+            let q2 = t2.find('"')?;
+            let col = &t2[..q2];
+            let t3 = t2[q2 + 1..].strip_prefix(")")?;
+            Some((name.to_string(), col.to_string(), t3))
+        })();
+        match parsed {
+            Some((name, col, t3)) => {
+                out.push_str(&format!("(SELECT column1 AS \"{}\" FROM ({})) AS \"{}\"", col, values, name));
+                rest = t3;
+            }
+            None => {
+                out.push_str(&after[..end + 1]);
+                rest = tail;
+            }
+        }
+    }
+    out.push_str(rest);
+    out
 }
 
 // ---------------------------------------------------------------- the sql-run engine
